@@ -15,8 +15,8 @@ import (
 // ---- C17: secrets are never stored or logged in recoverable form
 
 type monC17 struct {
-	logSeen int
-	kinds   map[string]bool
+	logSeen                 int
+	kinds                   map[string]bool
 	rejectedTokenSubmission bool
 }
 
